@@ -3,6 +3,7 @@ package client
 import (
 	"bytes"
 	"fmt"
+	"os"
 	"sort"
 	"sync"
 	"syscall"
@@ -84,7 +85,30 @@ func rawParser(b []byte) ([]syscall.NetlinkMessage, error) {
 	return []syscall.NetlinkMessage{{Data: append([]byte(nil), b...)}}, nil
 }
 
+// firstRoute keeps one NETLINK_ROUTE socket open for the whole process: the kernel gives the process id as
+// port id only to the first netlink socket of a protocol, every further socket gets another number — the
+// clients under test must be such "further" sockets, or a port id confused with the process id goes unseen.
+var firstRoute int = -1
+
+func holdFirstRouteSocket() error {
+	if firstRoute >= 0 {
+		return nil
+	}
+	fd, err := syscall.Socket(syscall.AF_NETLINK, syscall.SOCK_RAW, syscall.NETLINK_ROUTE)
+	if err != nil {
+		return err
+	}
+	if err := syscall.Bind(fd, &syscall.SockaddrNetlink{Family: syscall.AF_NETLINK}); err != nil {
+		return err
+	}
+	firstRoute = fd
+	return nil
+}
+
 func setupSockets() {
+	if sockErr = holdFirstRouteSocket(); sockErr != nil {
+		return
+	}
 	routeClient, sockErr = libaudit.NewNetlinkClient(syscall.NETLINK_ROUTE, 0, make([]byte, 16384), nil)
 	if sockErr != nil {
 		return
@@ -98,6 +122,11 @@ func setupSockets() {
 		return
 	}
 	routePort = ne.Uint32(msgs[0].Data[12:])
+	if routePort == uint32(os.Getpid()) {
+		hC18.Class("client-port-id-equals-process-id") // unexpected: the held socket should have taken it
+	} else {
+		hC18.Class("client-port-id-differs-from-process-id")
+	}
 	if routeSpoof, sockErr = syscall.Socket(syscall.AF_NETLINK, syscall.SOCK_RAW, syscall.NETLINK_ROUTE); sockErr != nil {
 		return
 	}
@@ -309,6 +338,9 @@ func TestC18Lengths(t *testing.T) {
 // goroutine, and exactly the sequences the kernel saw on the wire.
 func TestC18Concurrent(t *testing.T) {
 	rounds := hx.EnvInt("VERIF_N", 200)
+	if err := holdFirstRouteSocket(); err != nil {
+		t.Skipf("no netlink sockets: %v", err)
+	}
 	for r := 0; r < rounds; r++ {
 		cl, err := libaudit.NewNetlinkClient(syscall.NETLINK_ROUTE, 0, make([]byte, 16384), nil)
 		if err != nil {
@@ -387,6 +419,9 @@ func TestC18Concurrent(t *testing.T) {
 			d := msgs[0].Data
 			if len(d) < 39 {
 				hC18.Fail(t, "TestC18Concurrent", c, "short kernel reply (%d bytes)", len(d))
+			}
+			if port, hdr := ne.Uint32(d[12:]), ne.Uint32(d[32:]); port != hdr {
+				hC18.Fail(t, "TestC18Concurrent", c, "nlmsg_pid on the wire = %d, the socket's port id is %d", hdr, port)
 			}
 			outer, inner := ne.Uint32(d[8:]), ne.Uint32(d[28:])
 			if outer != inner {
